@@ -85,8 +85,8 @@ PROPS = {
     },
     "C06": {
         "controls": ["FLW-guard"],
-        "rules": [("FLW-1", flw.flw1), ("FLW-10", flw.flw10), ("FLW-8", flw2.flw8)],
-        "explanation": "FLW-10: in input_match_at a match reported after the scan loop (the word ran out mid-match) is conditioned on `state_index`, i.e. only the trailing boundary may be left unmatched (on the pinned tree it was not: `a x $ > e` rewrote `ka`; repaired, F7). FLW-8: a restarted or new match attempt never sees bindings of an abandoned one. FLW-1 decides the no-write-without-match clause of C06: the four matchers take the word as &Word and Word/Syllable/Segment are Freeze with no "
+        "rules": [("FLW-1", flw.flw1), ("FLW-10", flw.flw10), ("FLW-11", flw.flw11), ("FLW-8", flw2.flw8)],
+        "explanation": "FLW-10: in input_match_at a match reported after the scan loop (the word ran out mid-match) is conditioned on `state_index`, i.e. only the trailing boundary may be left unmatched (on the pinned tree it was not: `a x $ > e` rewrote `ka`; repaired, F7). FLW-11: for every element kind of SubRule::input_match_item, the number of times `*state_index` is advanced on a path that ends in a successful match is exactly one, counted structurally over the HIR with summaries of the matchers that receive the index (a matcher that advances inside a loop, the ellipsis, is exempt); on the pinned tree syllable variables and syllables inside sets advanced it twice, so the next element was skipped (`%=1 1 q > *`, `{%,x} q > *`; repaired, F8). FLW-8: a restarted or new match attempt never sees bindings of an abandoned one. FLW-1 decides the no-write-without-match clause of C06: the four matchers take the word as &Word and Word/Syllable/Segment are Freeze with no "
                        "unaudited unsafe in their call tree, so a failed or partial match cannot have altered it; in SubRule::apply the word is replaced only by "
                        "the result of transform, whose call is reachable only on the non-empty edge of the input match and the true edge of "
                        "match_contexts_and_exceptions (MIR dominance + reachability avoiding the guard); in the insertion loop `insert` is reachable only after "
